@@ -24,6 +24,7 @@ What extraction changes in a function (complete list; everything else is token-f
   E8  `x %= e;` / `x /= e;` on an integer local -> `x = x % (e);` (semantics-preserving desugaring)
   E9  `.into()` (method call, no arguments) -> `.verif_into()`: Verus has no spec for user `Into` impls; the unit declares
       `verif_into` on the source type with the contract of the one-line impl (`fn into(self) -> LoopTyme { self.parent }`)
+  E10 `for _ in a..b` -> `for verif_i in a..b` (names the counter so that a loop invariant can refer to it; nothing else changes)
   E5  the clauses above are inserted at the anchored positions
 Any lost anchor raises ScanError (exit 2).
 """
@@ -110,6 +111,12 @@ class Extraction:
             if t.kind == 'id' and t.text == 'into' and toks[j - 1].text == '.' and toks[j + 1].text == '(' and toks[j + 2].text == ')':
                 repl.append((t.start, t.end, 'verif_into'))
                 dropped.append('.into() -> .verif_into()')
+        # E10: `for _ in` -> `for verif_i in`
+        for j in range(it.body_open_k, it.toks_hi - 3):
+            t = toks[j]
+            if t.kind == 'id' and t.text == 'for' and toks[j + 1].text == '_' and toks[j + 2].text == 'in':
+                repl.append((toks[j + 1].start, toks[j + 1].end, 'verif_i'))
+                dropped.append('for _ in -> for verif_i in')
         # E2b: name the return value `r` so that ensures clauses can refer to it: `-> T` becomes `-> (r: T)`
         depth = 0
         for j in range(it.kw_tok, it.body_open_k):
@@ -155,7 +162,12 @@ class Extraction:
         it = s.find_top('static', d['static'])
         body = s.text[s.toks[it.kw_tok].start:it.end]
         body = re.sub(r'^static\b', 'const', body)
-        self.log.append({'file': d['file'], 'item': 'static ' + d['static'], 'dropped': ['pub', 'static->const']})
+        dropped = ['pub', 'static->const']
+        if '[&str;' in body:
+            # the elided lifetime of a reference in a `static` IS 'static; a Verus const needs it spelled out
+            body = body.replace('[&str;', "[&'static str;", 1)
+            dropped.append("&str -> &'static str (the elided lifetime, spelled out)")
+        self.log.append({'file': d['file'], 'item': 'static ' + d['static'], 'dropped': dropped})
         return body
 
     def assemble(self, template_text):
